@@ -379,6 +379,11 @@ def _get_insertion_index(routing_table, generality):
     def gg(entry):
         return _get_generality(entry.key, entry.mask)
 
+    # Nothing can be found in (and anything is inserted at the start of) an
+    # empty table
+    if not routing_table:
+        return 0
+
     # Perform a binary search through the routing table
     bottom = 0
     top = len(routing_table)
